@@ -36,7 +36,7 @@ ASSUMPTIONS = [
     "async pauses are measured on the virtual clock (loop.time()); sync pauses are the recorded time.sleep calls",
     "wrapped callables have a __name__",
 ]
-MINIMUMS = {"monitor:attempts": 5000, "monitor:pauses": 2000, "monitor:delay-args": 500, "retries_observed": 5000, "monitor:cancel-in-pause": 50}
+MINIMUMS = {"monitor:attempts": 5000, "monitor:pauses": 2000, "monitor:delay-args": 500, "retries_observed": 5000, "monitor:cancel-in-pause": 50, "calls_from_a_task_with_a_swallowed_cancellation": 300}
 JOBS = {"quick": 4, "thorough": 8}
 LEVEL_TEXT = (
     "The complete product of outcome sequences (up to limit+1 attempts, plus over-call detection), limits 1-4, four caught-set forms, five "
@@ -187,6 +187,17 @@ def run_case(R: Recorder, case: dict[str, Any], verbose: bool = False) -> None:
 
     async def main(loop: Any) -> None:
         async def call() -> None:
+            if case.get("stale_cancel"):
+                # the caller is cleanup code of a cancelled task: it caught its CancelledError earlier and never called uncancel();
+                # nothing new is pending - retrying goes on as usual
+                me = asyncio.current_task()
+                assert me is not None
+                me.cancel()
+                try:
+                    await asyncio.sleep(0)
+                except asyncio.CancelledError:
+                    pass
+                R.count("calls_from_a_task_with_a_swallowed_cancellation")
             try:
                 if flavour == "sync":
                     wrapped = build(retry, sync_fn, limit, cform, dform, dargs_log, deco)
@@ -282,6 +293,8 @@ def cases(tier: str):  # noqa: ANN201
                     for flavour in ("sync", "async"):
                         for scoped in (False, True):
                             yield {"seq": list(seq), "limit": limit, "catching": cform, "delay": dform, "flavour": flavour, "scoped": scoped, "deco": "args"}
+                        if (limit + len(seq)) % 3 == 0:
+                            yield {"seq": list(seq), "limit": limit, "catching": cform, "delay": dform, "flavour": flavour, "scoped": False, "deco": "args", "stale_cancel": True}
                         if tier == "thorough" and flavour == "async":
                             yield {"seq": list(seq), "limit": limit, "catching": cform, "delay": dform, "flavour": flavour, "scoped": False, "deco": "args", "dur": 0.5}
                     # cancellation inside each pause (async, positive delay only)
